@@ -44,8 +44,10 @@ def exact_norm(v, n):
 def cases(draw, max_n: int):
     from .. import libgames
     cls = draw(st.sampled_from(["exact", "exact-additive", "nearly-additive", "float", "float-additive", "lib", "lib-additive", "graph"]))
-    n = draw(st.integers(3, max_n))
+    n = draw(st.sampled_from([2] + list(range(3, max_n + 1)) * 2))     # two-player games are games too
     size = 1 << n
+    if n == 2 and cls in ("lib", "lib-additive", "graph"):
+        cls = "exact"
     if cls == "exact":
         g = draw(superadditive_games(n, n, classes=("int", "dyadic")))
         return {"cls": cls, "n": n, "game": {"kind": "table", "n": n, "v": g["v"]}}
